@@ -307,7 +307,7 @@ def handleSql (c i : Json) : Except String Driver.Verdict := do
     | .error _ => false
   let oks := runs.filterMap fun (k, o) => match o with | .ok t => some (k, t) | _ => none
   let panics := runs.filterMap fun (k, o) => match o with | .panic m => some s!"{k}: {m.take 100}" | _ => none
-  let errs := runs.filterMap fun (k, o) => match o with | .err e => some s!"{k}: {e}" | _ => none
+  let errs := runs.filterMap fun (k, o) => match o with | .err "timeout" => none | .err e => some s!"{k}: {e}" | _ => none
   -- reference configuration: single batch, one thread (if it answered), else the first answer
   let ref? : Option (String × Table) :=
     match oks.find? (fun (k, _) => k.startsWith "mem1@t1w") with
